@@ -718,3 +718,78 @@ func globalLoad(v ssa.Value) *ssa.Global {
 }
 
 var _ = strings.Join
+
+// ruleWatcherContextPairing (client): the context handed to the watcher of
+// pending entry i is the one created together with that entry: the two slices
+// are appended in lock step from the two results of one call, and indexed by
+// the same loop index at registration.
+func ruleWatcherContextPairing(c *chk.Ctx) {
+	for _, f := range pkgFuncs(c, c.M.Pkg) {
+		ir.Instrs(f, func(ins ssa.Instruction) {
+			mu, ok := ins.(*ssa.MapUpdate)
+			if !ok || !chk.LoadsField(mu.Map, c.M.CPending) {
+				return
+			}
+			var watcher *ssa.Go
+			ir.Instrs(f, func(i2 ssa.Instruction) {
+				if g, ok := i2.(*ssa.Go); ok && ir.InstrDominates(mu, g) {
+					for _, a := range g.Call.Args {
+						if ir.NormCell(a) == ir.NormCell(mu.Value) {
+							watcher = g
+						}
+					}
+				}
+			})
+			if watcher == nil {
+				return // reported by TOKEN.register
+			}
+			// the Response: load of pends[i]; the ctx: load of pctxs[i]
+			rl, ok1 := ir.NormCell(mu.Value).(*ssa.UnOp)
+			var cl *ssa.UnOp
+			for _, a := range watcher.Call.Args {
+				if u, ok := a.(*ssa.UnOp); ok && strings.HasSuffix(u.Type().String(), "context.Context") {
+					cl = u
+				}
+			}
+			good, why := false, "registration does not take the Response and its context from two slices at one index"
+			if ok1 && cl != nil {
+				ria, okr := rl.X.(*ssa.IndexAddr)
+				cia, okc := cl.X.(*ssa.IndexAddr)
+				if okr && okc && ria.Index == cia.Index {
+					rv, _ := c.P.ElementValues(ria.X)
+					cv, _ := c.P.ElementValues(cia.X)
+					why = "the two slices are not filled in lock step from one call"
+					if len(rv) == 1 && len(cv) == 1 {
+						re, ok3 := rv[0].(*ssa.Extract)
+						ce, ok4 := cv[0].(*ssa.Extract)
+						if ok3 && ok4 && re.Tuple == ce.Tuple && re.Index != ce.Index && re.Block() == ce.Block() {
+							// the appends are in the same block too
+							var ra, ca *ssa.BasicBlock
+							ir.Instrs(f, func(i3 ssa.Instruction) {
+								if call, ok := i3.(*ssa.Call); ok {
+									if b, isB := call.Call.Value.(*ssa.Builtin); isB && b.Name() == "append" {
+										els, _ := c.P.ElementValues(call.Call.Args[1])
+										for _, e := range els {
+											if e == ssa.Value(re) {
+												ra = call.Block()
+											}
+											if e == ssa.Value(ce) {
+												ca = call.Block()
+											}
+										}
+									}
+								}
+							})
+							if ra != nil && ra == ca {
+								good = true
+							} else {
+								why = "the two appends are not in one basic block (they could get out of step)"
+							}
+						}
+					}
+				}
+			}
+			c.Check(good, "TOKEN.register", f, "watcher watches the entry's own context", watcher.Pos(), "Response i and context i come from the two results of one constructor call, appended in the same block, and are read at the same index when the watcher starts", "the context given to a pending entry's watcher is not provably the one created with that entry ("+why+"): a request could be completed by another request's context ending")
+		})
+	}
+}
